@@ -4,6 +4,7 @@ import (
 	"encoding/json"
 	"fmt"
 	"math"
+	"reflect"
 	"strconv"
 	"strings"
 	sc "text/scanner"
@@ -268,27 +269,14 @@ func (x *opFunction) Do(currentData, originalData any) (dataToUse any, err error
 			for _, rt := range resType {
 				rtParams = append(rtParams, &FP_Bool{rt})
 			}
-		case []float64:
-			for _, asFloat := range resType {
-				if math.IsNaN(asFloat) || math.IsInf(asFloat, 0) {
-					return nil, fmt.Errorf("unhandled param path value: %v", asFloat)
-				}
-				rtParams = append(rtParams, &FP_Number{decimal.NewFromFloat(asFloat)})
+		default:
+			// any other slice or array: spread its elements, whatever Go type carries them
+			rv := reflect.ValueOf(res)
+			if k := rv.Kind(); k != reflect.Slice && k != reflect.Array {
+				return nil, fmt.Errorf("unhandled param path type: %T", resType)
 			}
-		case []int:
-			for _, asInt := range resType {
-				rtParams = append(rtParams, &FP_Number{decimal.NewFromInt(int64(asInt))})
-			}
-		case []any:
-			for _, pv := range resType {
-				switch pvType := pv.(type) {
-				case float64:
-					if math.IsNaN(pvType) || math.IsInf(pvType, 0) {
-						return nil, fmt.Errorf("unhandled param path value: %v", pvType)
-					}
-					rtParams = append(rtParams, &FP_Number{decimal.NewFromFloat(pvType)})
-				case int:
-					rtParams = append(rtParams, &FP_Number{decimal.NewFromInt(int64(pvType))})
+			for i := 0; i < rv.Len(); i++ {
+				switch pvType := rv.Index(i).Interface().(type) {
 				case decimal.Decimal:
 					rtParams = append(rtParams, &FP_Number{pvType})
 				case string:
@@ -296,11 +284,13 @@ func (x *opFunction) Do(currentData, originalData any) (dataToUse any, err error
 				case bool:
 					rtParams = append(rtParams, &FP_Bool{pvType})
 				default:
-					return nil, fmt.Errorf("unhandled param path type: %T", pv)
+					wasNumber, number := convertToDecimalIfNumberAndCheck(pvType)
+					if !wasNumber {
+						return nil, fmt.Errorf("unhandled param path type: %T", pvType)
+					}
+					rtParams = append(rtParams, &FP_Number{number})
 				}
 			}
-		default:
-			return nil, fmt.Errorf("unhandled param path type: %T", resType)
 		}
 	}
 
